@@ -65,9 +65,153 @@ def gen_weights(rng, n, family):
     return [x / s for x in w]
 
 
+def gen_ov(st, tier):
+    """Direct histories on the streaming accumulator: R ranks, any assignment
+    of samples to ranks, pooled result asked at several checkpoints of the
+    same accumulators (more samples follow), values handed over as fresh
+    arrays or through one re-filled buffer per rank."""
+    c = st('config')
+    d = st('data')
+    Rn = c.choice([1, 1, 2, 3, 4, c.randint(1, 8)])
+    N = c.choice([2, 3, 4, 5, 8, 13, c.randint(2, 40)])
+    dim = c.choice([0, 1, 3, 6])
+    fam = d.choice(WEIGHT_FAMILIES)
+    scale = 10 ** d.uniform(-3, 3)
+    off = d.choice([0.0, 0.0, 1e3, -50.0])
+    vals = [[off + scale * d.gauss(0, 1) for _ in range(max(dim, 1))]
+            for _ in range(N)]
+    style = c.choice(['roundrobin', 'random', 'blocks', 'one_rank'])
+    if style == 'roundrobin':
+        assign = [i % Rn for i in range(N)]
+    elif style == 'random':
+        assign = [d.randrange(Rn) for _ in range(N)]
+    elif style == 'blocks':
+        assign = sorted(d.randrange(Rn) for _ in range(N))
+    else:
+        assign = [d.randrange(Rn)] * N
+    ncp = c.choice([0, 1, 2, 3])
+    cps = sorted(set(d.randint(1, N) for _ in range(ncp))) + [N]
+    cfg = {'part': 'ov', 'R': Rn, 'N': N, 'dim': dim, 'values': vals,
+           'weight_family': fam, 'weights': gen_weights(d, N, fam),
+           'assign': assign, 'checkpoints': sorted(set(cps)),
+           'reuse_buffer': c.random() < 0.4}
+    s = st('sched')
+    ops = []
+    for _ in range(s.randint(2, 12)):
+        perm = list(range(Rn))
+        s.shuffle(perm)
+        ops.append(['perm', perm])
+    return {'config': cfg, 'ops': ops}
+
+
+def exec_ov(case, keep_text=False):
+    cfg = case['config']
+    out = Outcome()
+    log = EventLog(keep_text)
+    Rn = cfg['R']
+    perms = [op[1] for op in case['ops'] if op[0] == 'perm'
+             and sorted(op[1]) == list(range(Rn))]
+    N = cfg['N']
+    dim = cfg['dim']
+    X = np.array(cfg['values'], dtype=float)
+    if dim == 0:
+        X = X[:, 0]
+    # as Optimizer.sample_parameters hands them over: never exactly zero
+    W = np.array(cfg['weights'], dtype=float) + 1e-300
+    assign = list(cfg['assign'])
+    cps = [cp for cp in cfg['checkpoints'] if 1 <= cp <= N]
+    if not cps or cps[-1] != N:
+        cps.append(N)
+
+    def viol(cls, key, detail):
+        out.violations.append(Violation(cls, key, detail))
+
+    world = SimWorld(Rn, perms=perms, log=log, cap=50 + 10 * len(cps))
+
+    def body(r):
+        from taurex.util.math import OnlineVariance
+        ov = OnlineVariance()
+        buf = np.zeros(dim) if dim else None
+        res = []
+        done = 0
+        for cp in cps:
+            for i in range(done, cp):
+                if assign[i] % Rn != r:
+                    continue
+                if dim and cfg.get('reuse_buffer'):
+                    buf[...] = X[i]
+                    ov.update(buf, W[i])
+                elif dim:
+                    ov.update(np.array(X[i]), W[i])
+                else:
+                    ov.update(float(X[i]), W[i])
+            done = cp
+            res.append(ov.parallelVariance())
+        return res
+
+    results = world.run(body)
+    out.bump('steps', 'collectives', world.ncollectives)
+    out.bump('steps', 'accumulator_runs')
+    out.bump('faults', 'serialised_bytes', world.bytes_pickled)
+    out.bump('probes', 'accumulator_history')
+    if len(cps) > 1:
+        out.bump('probes', 'pooled_result_asked_again')
+    if cfg.get('reuse_buffer') and dim:
+        out.bump('probes', 'values_through_reused_buffer')
+    counts = [sum(1 for a in assign if a % Rn == r) for r in range(Rn)]
+    out.signature = '%x' % H('ov', Rn, tuple(counts), tuple(cps), dim,
+                             tuple(world.arrival_orders))
+    out.nontrivial = Rn > 1 or len(cps) > 1
+    try:
+        if world.deadlock:
+            viol('deadlock', 'collectives', world.deadlock)
+            raise StopIteration
+        for r in range(Rn):
+            if world.errors[r] is not None:
+                e, tb = world.errors[r]
+                viol('rank-exception', 'ov:' + type(e).__name__,
+                     'rank %d of %d: %r\n%s' % (r, Rn, e, tb[-1200:]))
+                raise StopIteration
+        from sim.kernel import canon
+        for r in range(1, Rn):
+            if canon(results[r]) != canon(results[0]):
+                viol('ranks-disagree', 'ov', 'rank %d differs from rank 0' % r)
+                raise StopIteration
+        log.add('world', 'ov', results[0])
+        for k, cp in enumerate(cps):
+            got = results[0][k]
+            x = X[:cp]
+            w = W[:cp]
+            if cp < 2:
+                if not np.all(np.isnan(np.asarray(got, dtype=float))):
+                    viol('std-mismatch', 'ov:fewer-than-two', 'checkpoint %d: '
+                         'one sample must give NaN, got %r' % (cp, got))
+                continue
+            if w.max() < 1e-280:
+                out.bump('probes', 'all_subnormal_subset')
+                continue
+            wn = w / w.max()
+            mean = np.tensordot(wn, x, axes=(0, 0)) / wn.sum()
+            var = np.tensordot(wn, (x - mean) ** 2, axes=(0, 0)) / wn.sum()
+            scale = np.sqrt(np.max(x ** 2, axis=0))
+            msg = _var_close(np.asarray(got, dtype=float), np.asarray(var),
+                             np.asarray(scale), 'ov')
+            if msg:
+                viol('std-mismatch', 'ov:checkpoint%d' % min(k, 1),
+                     '%s at checkpoint %d of %s (R=%d, per-rank counts %s)'
+                     % (msg, cp, cps, Rn, counts))
+                raise StopIteration
+    except StopIteration:
+        pass
+    out.digest = log.digest()
+    return out
+
+
 def generate(run_seed, tier):
     st = Streams(run_seed)
     c = st('config')
+    if st('part').random() < 0.15:
+        return gen_ov(st, tier)
     rmax = 8 if tier == 'quick' else 24
     Rn = c.choice([1, 2, 2, 3, 3, 4, 5, 6, rmax, c.randint(1, rmax)])
     mcfg = R.gen_model_cfg(c)
@@ -90,6 +234,14 @@ def generate(run_seed, tier):
     family = d.choice(WEIGHT_FAMILIES)
     weights = gen_weights(d, N, family)
     samples_u = [[d.uniform(0.02, 0.98) for _ in fit] for _ in range(N)]
+    if c.random() < 0.2 and N >= 3 and len(fit) >= 2:
+        # one fitted coordinate takes only a few distinct values: derived
+        # parameters that depend on it alone have exact ties between samples
+        # of different weight
+        j = c.randrange(len(fit))
+        levels = [d.uniform(0.05, 0.95) for _ in range(c.choice([2, 2, 3]))]
+        for row in samples_u:
+            row[j] = d.choice(levels)
     cfg = {'R': Rn, 'model': mcfg, 'obs': S.gen_obs(c, mcfg), 'fit': fit,
            'derived': derived, 'N': N, 'sigma_fraction': frac,
            'weight_family': family, 'weights': weights,
@@ -202,6 +354,8 @@ def _var_close(v_impl, v_ref, mean_ref, where):
 def execute(case, keep_text=False):
     warmup()
     cfg = case['config']
+    if cfg.get('part') == 'ov':
+        return exec_ov(case, keep_text)
     out = Outcome()
     log = EventLog(keep_text)
     Rn = cfg['R']
@@ -251,6 +405,21 @@ def execute(case, keep_text=False):
         return res
 
     allresults = world.run(body)
+    single = [None] * nsol
+
+    def run_single(sid):
+        """The same post-processing of solution `sid` on one rank."""
+        w1 = SimWorld(1, perms=[], log=None, cap=400)
+        got = {}
+
+        def body1(r):
+            model, obs, opt = _build_rank(cfg, [p[0].copy() for p in posts],
+                                          [p[1].copy() for p in posts])
+            got['d'] = opt.compute_derived_trace(sid)
+        w1.run(body1)
+        if w1.errors[0] is not None or w1.deadlock:
+            return {}
+        return got.get('d') or {}
     if nsol > 1:
         out.bump('probes', 'second_solution_same_objects')
     out.bump('steps', 'collectives', world.ncollectives)
@@ -438,6 +607,25 @@ def execute(case, keep_text=False):
                              % (d, Rn, int(np.argmax(~np.isclose(
                                  tr, rt, rtol=1e-12, atol=0)))))
                         continue
+                    nuniq = len(set(rt.tolist()))
+                    if 1 < nuniq < len(rt):
+                        # exact ties between samples of different weight: the
+                        # quantile rule then depends on the order of the tied
+                        # samples, so the oracle is what the statement names -
+                        # the same code on ONE rank
+                        if single[sid] is None:
+                            single[sid] = run_single(sid)
+                        out.bump('probes', 'tied_derived_values')
+                        sent = (single[sid] or {}).get('%s_derived' % d)
+                        if sent is None:
+                            continue
+                        for nm in ('value', 'sigma_m', 'sigma_p', 'mean'):
+                            a, b = float(ent[nm]), float(sent[nm])
+                            if abs(a - b) > 1e-12 * max(abs(b), 1e-300):
+                                viol('derived-summary', nm + ':vs-one-rank',
+                                     '%s: %r on %d ranks, %r in a single '
+                                     'process' % (d, a, Rn, b))
+                        continue
                     q16, q50, q84 = ref_quantiles(list(rt), list(weights),
                                                   [0.16, 0.5, 0.84])
                     for nm, want in (('value', q50), ('sigma_m', q50 - q16),
@@ -459,6 +647,35 @@ def execute(case, keep_text=False):
 def simplify(case):
     import copy
     cfg = case['config']
+    if cfg.get('part') == 'ov':
+        for r in (1, 2):
+            if r < cfg['R']:
+                c = copy.deepcopy(case)
+                c['config']['R'] = r
+                c['ops'] = []
+                yield c
+        n = cfg['N']
+        for keep in (2, 3, n // 2, n - 1):
+            if 2 <= keep < n:
+                c = copy.deepcopy(case)
+                cc = c['config']
+                cc['N'] = keep
+                cc['values'] = cc['values'][:keep]
+                cc['weights'] = cc['weights'][:keep]
+                cc['assign'] = cc['assign'][:keep]
+                cc['checkpoints'] = sorted(set(
+                    min(cp, keep) for cp in cc['checkpoints']))
+                yield c
+        if len(cfg['checkpoints']) > 1:
+            for i in range(len(cfg['checkpoints']) - 1):
+                c = copy.deepcopy(case)
+                del c['config']['checkpoints'][i]
+                yield c
+        if cfg.get('reuse_buffer'):
+            c = copy.deepcopy(case)
+            c['config']['reuse_buffer'] = False
+            yield c
+        return
     if cfg.get('extra_solutions'):
         c = copy.deepcopy(case)
         del c['config']['extra_solutions']
